@@ -110,6 +110,7 @@ def recoverOp (args : List String) : String :=
   | kind :: isClient :: pv :: _ =>
     let body : Outcome Nat := match pv with
       | "none" => .ret 0
+      | "fail" => .ret 8          -- returned an ordinary error (resource_exhausted), no panic
       | "nil" => .panic .nil
       | "abort" => .panic .abort
       | _ => .panic (.other 1)
@@ -119,6 +120,7 @@ def recoverOp (args : List String) : String :=
       | .nil => "nil" | .abort => "abort" | .other _ => "other")
     let out := match r.outcome with
       | .ret 99 => "recovered"
+      | .ret 8 => "error:resource_exhausted"
       | .ret _ => "returned"
       | .panic .abort => "panic-abort"
       | .panic .nil => "panic-nil"
